@@ -75,6 +75,12 @@ def discover_stages(project):
             tgt = [k.value for k in pc.keywords if k.arg == "target"][0]
             st.worker = _resolve_function(project, f, tgt)
             args = [k.value for k in pc.keywords if k.arg == "args"]
+            if args and isinstance(args[0], ast.Name):
+                # args=<local name bound once to a tuple literal>
+                defs = [n for n in own_nodes(f.node) if isinstance(n, ast.Assign) and len(n.targets) == 1
+                        and isinstance(n.targets[0], ast.Name) and n.targets[0].id == args[0].id]
+                if len(defs) == 1 and isinstance(defs[0].value, (ast.Tuple, ast.List)):
+                    args = [defs[0].value]
             if st.worker is not None and args and isinstance(args[0], (ast.Tuple, ast.List)):
                 for p, e in zip(st.worker.params(), args[0].elts):
                     st.binding[p] = e
